@@ -125,7 +125,8 @@ def run_inst(spec, run):
         else:
             viol = z3.Or(z3.Or(bad) if bad else z3.BoolVal(False), z3.Not(allrows))
         run.obligation(ctx, "rows-iff-top" if active else "extended-assignment-feasible", viol, conc)
-        run.validate(ctx, conc, lambda mm: {"props": {str(k): S.model_int(mm, b.lower) for k, b in r.items()}})
+        ext = z3.Or([z3.Or(x[l].e == lo, x[l].e == hi) for l, (lo, hi) in leaves.items() if (lo, hi) != (0, 1)] or [z3.BoolVal(False)])
+        run.validate(ctx, conc, lambda mm: {"props": {str(k): S.model_int(mm, b.lower) for k, b in r.items()}}, extremes=ext)
         run.sample({"model": pl.show(model_spec), "active": active, "matrix": M.tolist(), "columns": [str(c) for c in cols],
                     "path_condition": [str(z3.simplify(c)) for c in ctx.pc][:4]})
 
